@@ -84,7 +84,7 @@ Proof.
   destruct Hsb as (Hle4 & C4 & L4 & R41 & R42 & B4).
   assert (Fin : rin p' ord = rin p3 ord /\ rout p' ord = rout p3 ord /\
                 ex_in p' ord = ex_in p3 ord /\ ex_out p' ord = ex_out p3 ord - out).
-  { unfold rin, rout, ex_in, ex_out, ex1, ex2. destruct ord; simpl in *; lia. }
+  { clear - R41 R42 B4. unfold rin, rout, ex_in, ex_out, ex1, ex2. destruct ord; simpl in *; lia. }
   destruct Fin as (R5i & R5o & X5i & X5o).
   exists ord, out, fee.
   unfold can_swap in Ecs. apply Z.eqb_eq in Ecs.
@@ -195,7 +195,7 @@ Proof.
   destruct Hsb as (Hle4 & C4 & L4 & R41 & R42 & B4).
   assert (Fin : rin p' ord = rin p3 ord /\ rout p' ord = rout p3 ord /\
                 ex_in p' ord = ex_in p3 ord /\ ex_out p' ord = ex_out p3 ord - aout).
-  { unfold rin, rout, ex_in, ex_out, ex1, ex2. destruct ord; simpl in *; lia. }
+  { clear - R41 R42 B4. unfold rin, rout, ex_in, ex_out, ex1, ex2. destruct ord; simpl in *; lia. }
   destruct Fin as (R5i & R5o & X5i & X5o).
   exists ord, cin, fee.
   unfold can_swap in Ecs. apply Z.eqb_eq in Ecs.
@@ -213,4 +213,233 @@ Proof.
   intros Hinv Ha. destruct (fee_lt_M _ Hinv) as (Fs & FM). unfold special_fee.
   pose proof (div_lo (ain * p_sfee p) M M_pos). split; [lia|].
   apply Z.div_le_upper_bound; [apply M_pos|]. pose proof M_pos. nia.
+Qed.
+
+(** ---------------------------------------------------------------- liquidity (C04) *)
+Lemma add_char p c a1 a2 m1 m2 p' outs e :
+  PairInv p -> 0 < p_S p -> ep_add p c a1 a2 m1 m2 = Ok (p', outs, e) ->
+  exists o1 o2 liq,
+    outs = [liq; o1; o2] /\
+    (* the largest deposit at the pool ratio that fits the payment *)
+    ((o1 = a1 /\ is_floor o2 (a1 * p_r2 p) (p_r1 p) /\ o2 <= a2) \/
+     (a2 < a1 * p_r2 p / p_r1 p /\ o2 = a2 /\ is_floor o1 (a2 * p_r1 p) (p_r2 p) /\ o1 <= a1)) /\
+    0 < m1 <= o1 /\ 0 < m2 <= o2 /\
+    liq = Z.min (o1 * p_S p / p_r1 p) (o2 * p_S p / p_r2 p) /\ 0 < liq /\
+    (* pool and ledger: used amounts stay, the rest is refunded; LP minted to the caller *)
+    p_r1 p' = p_r1 p + o1 /\ p_r2 p' = p_r2 p + o2 /\ p_S p' = p_S p + liq /\
+    p_bal1 p' = p_bal1 p + o1 /\ p_bal2 p' = p_bal2 p + o2 /\
+    lp_of p' c = lp_of p c + liq /\ (forall b, b <> c -> lp_of p' b = lp_of p b).
+Proof.
+  intros Hinv HS H. unfold ep_add in H.
+  destruct ((0 <? m1) && (0 <? m2)) eqn:Em; [|discriminate].
+  destruct ((0 <? a1) && (0 <? a2)) eqn:Ea; [|discriminate].
+  destruct (is_state_active (p_state p)); [|discriminate].
+  destruct (match p_adder p with Some _ => negb (p_S p =? 0) | None => true end); [|discriminate].
+  apply bind_ok in H. destruct H as ([o1 o2] & Hopt & H).
+  apply bind_ok in H. destruct H as ([p1 liq] & Hpool & H).
+  destruct (k_check p p1) eqn:Ek; [|discriminate].
+  inversion H; subst; clear H.
+  apply andb_prop in Ea. destruct Ea as [Ea1 Ea2]. apply Z.ltb_lt in Ea1, Ea2.
+  apply andb_prop in Em. destruct Em as [Em1 Em2]. apply Z.ltb_lt in Em1, Em2.
+  destruct (i_pos _ Hinv HS) as (P1 & P2 & PL).
+  destruct (p_S p =? 0) eqn:ES; [apply Z.eqb_eq in ES; lia|].
+  unfold set_optimal in Hopt. rewrite ES in Hopt.
+  apply bind_ok in Hopt. destruct Hopt as (q2 & Hq2 & Hopt).
+  apply bind_ok in Hopt. destruct Hopt as ([x1 x2] & Hx & Hopt).
+  destruct (m1 <=? x1) eqn:M1; [|discriminate]. destruct (m2 <=? x2) eqn:M2; [|discriminate].
+  inversion Hopt; subst x1 x2; clear Hopt. apply Z.leb_le in M1, M2.
+  unfold quote in Hq2. apply div_chk_ok in Hq2. destruct Hq2 as [_ ->].
+  assert (Hcase : (o1 = a1 /\ is_floor o2 (a1 * p_r2 p) (p_r1 p) /\ o2 <= a2) \/
+     (a2 < a1 * p_r2 p / p_r1 p /\ o2 = a2 /\ is_floor o1 (a2 * p_r1 p) (p_r2 p) /\ o1 <= a1)).
+  { destruct (a1 * p_r2 p / p_r1 p <=? a2) eqn:Eq.
+    - inversion Hx; subst. apply Z.leb_le in Eq. left. split; [reflexivity|]. split; [apply is_floor_div; assumption | exact Eq].
+    - apply Z.leb_gt in Eq. apply bind_ok in Hx. destruct Hx as (q1 & Hq1 & Hx).
+      destruct (q1 <=? a1) eqn:Eq1; [|discriminate]. inversion Hx; subst. apply Z.leb_le in Eq1.
+      unfold quote in Hq1. apply div_chk_ok in Hq1. destruct Hq1 as [_ ->].
+      right. split; [lia|]. split; [reflexivity|]. split; [apply is_floor_div; assumption | exact Eq1]. }
+  apply bind_ok in Hpool. destruct Hpool as (l1 & Hl1 & Hpool).
+  apply bind_ok in Hpool. destruct Hpool as (l2 & Hl2 & Hpool).
+  cbv zeta in Hpool. destruct (0 <? Z.min l1 l2) eqn:EL; [|discriminate].
+  inversion Hpool; subst; clear Hpool. apply Z.ltb_lt in EL.
+  apply div_chk_ok in Hl1, Hl2. destruct Hl1 as [_ ->]. destruct Hl2 as [_ ->].
+  exists o1, o2, (Z.min (o1 * p_S p / p_r1 p) (o2 * p_S p / p_r2 p)).
+  split; [reflexivity|]. split; [exact Hcase|]. split; [lia|]. split; [lia|].
+  split; [reflexivity|]. split; [exact EL|].
+  split; [reflexivity|]. split; [reflexivity|]. split; [reflexivity|].
+  split; [simpl; lia|]. split; [simpl; lia|].
+  unfold lp_credit, lp_of, set_lp. simpl.
+  split; [apply aget_aset_same|]. intros b Hb. apply aget_aset_other. congruence.
+Qed.
+
+Lemma remove_char p c lp m1 m2 p' outs e :
+  PairInv p -> ep_remove p c lp m1 m2 = Ok (p', outs, e) ->
+  exists x1 x2,
+    outs = [x1; x2] /\ 0 < lp /\ lp + MINIMUM_LIQUIDITY <= p_S p /\
+    is_floor x1 (lp * p_r1 p) (p_S p) /\ is_floor x2 (lp * p_r2 p) (p_S p) /\
+    0 < m1 <= x1 /\ 0 < m2 <= x2 /\ 0 < x1 < p_r1 p /\ 0 < x2 < p_r2 p /\
+    p_r1 p' = p_r1 p - x1 /\ p_r2 p' = p_r2 p - x2 /\ p_S p' = p_S p - lp /\
+    p_bal1 p' = p_bal1 p - x1 /\ p_bal2 p' = p_bal2 p - x2 /\
+    lp_of p' c = lp_of p c - lp /\ lp <= lp_of p c.
+Proof.
+  intros Hinv H. unfold ep_remove in H.
+  destruct ((0 <? m1) && (0 <? m2)) eqn:Em; [|discriminate].
+  destruct (is_state_active (p_state p)); [|discriminate].
+  destruct (0 <? lp) eqn:Elp; [|discriminate]. apply Z.ltb_lt in Elp.
+  apply bind_ok in H. destruct H as (p0 & Hdeb & H).
+  apply bind_ok in H. destruct H as ([[p1 x1] x2] & Hrem & H).
+  destruct (p_r1 p1 * p_r2 p1 <=? p_r1 p * p_r2 p); [|discriminate].
+  apply bind_ok in H. destruct H as (p2 & Hs1 & H).
+  apply bind_ok in H. destruct H as (p3 & Hs2 & H).
+  inversion H; subst; clear H.
+  apply andb_prop in Em. destruct Em as [Em1 Em2]. apply Z.ltb_lt in Em1, Em2.
+  pose proof Hinv as [b1 b2 iS ind inn ipos izero iS0 ifee icut].
+  apply lp_debit_spec in Hdeb; auto; try lia.
+  destruct Hdeb as (Hne & Hle & SD & NDD & NND & GD & OD & Ep0).
+  apply pool_remove_spec in Hrem; auto.
+  rewrite Ep0 in Hrem. simpl in Hrem.
+  destruct Hrem as (HS & HSl & -> & -> & Hx1 & Hx2 & Hm1 & Hm2 & ->).
+  pose proof (is_floor_div (lp * p_r1 p) (p_S p) HS) as F1.
+  pose proof (is_floor_div (lp * p_r2 p) (p_S p) HS) as F2.
+  set (x1 := lp * p_r1 p / p_S p) in *. set (x2 := lp * p_r2 p / p_S p) in *. clearbody x1 x2.
+  apply sub_bal_spec in Hs1. simpl in Hs1.
+  destruct Hs1 as (Hb1 & C1 & L1 & R11 & R12 & B11 & B12).
+  apply sub_bal_spec in Hs2. simpl in Hs2.
+  destruct Hs2 as (Hb2 & C2 & L2 & R21 & R22 & B21 & B22).
+  unfold set_pool, set_lp in *. simpl in *.
+  destruct L1 as (l11 & l12). destruct L2 as (l21 & l22).
+  exists x1, x2.
+  split; [reflexivity|]. split; [exact Elp|]. split; [exact HSl|]. split; [exact F1|]. split; [exact F2|].
+  split; [lia|]. split; [lia|]. split; [lia|]. split; [lia|].
+  split; [lia|]. split; [lia|]. split; [rewrite l21, l11; simpl; lia|]. split; [lia|]. split; [lia|].
+  unfold lp_of in *. rewrite l22, l12. split; [exact GD | exact Hle].
+Qed.
+
+Lemma remove_slippage p c lp m1 m2 :
+  PairInv p -> 0 < p_S p -> (lp * p_r1 p / p_S p < m1 \/ lp * p_r2 p / p_S p < m2) ->
+  is_ok (ep_remove p c lp m1 m2) = false.
+Proof.
+  intros Hinv HS Hlt.
+  destruct (ep_remove p c lp m1 m2) as [[[p' o] e]|] eqn:E; [|reflexivity].
+  exfalso. apply remove_char in E; auto.
+  destruct E as (x1 & x2 & _ & _ & _ & F1 & F2 & M1 & M2 & _).
+  apply is_floor_unique in F1; [|assumption]. apply is_floor_unique in F2; [|assumption]. lia.
+Qed.
+
+(** first deposit (either endpoint): min(a1,a2) LP created, 1000 of them stay in the pair for ever *)
+Lemma first_deposit_char p c a1 a2 p' outs e :
+  PairInv p -> ep_add_initial p c a1 a2 = Ok (p', outs, e) ->
+  p_S p = 0 /\ is_state_active (p_state p) = false /\
+  (forall ad, p_adder p = Some ad -> c = ad) /\
+  MINIMUM_LIQUIDITY < Z.min a1 a2 /\
+  outs = [Z.min a1 a2 - MINIMUM_LIQUIDITY; a1; a2] /\
+  p_S p' = Z.min a1 a2 /\ p_r1 p' = a1 /\ p_r2 p' = a2 /\ p_state p' = ST_PartialActive /\
+  lp_of p' SELF >= MINIMUM_LIQUIDITY.
+Proof.
+  intros Hinv H. pose proof H as H0. unfold ep_add_initial in H.
+  destruct (match p_adder p with Some ad => c =? ad | None => true end) eqn:Ead; [|discriminate].
+  destruct ((0 <? a1) && (0 <? a2)) eqn:Ea; [|discriminate].
+  destruct (negb (is_state_active (p_state p))) eqn:Est; [|discriminate].
+  destruct (p_S p =? 0) eqn:ES; [|discriminate].
+  cbv zeta in H.
+  destruct (MINIMUM_LIQUIDITY <? Z.min a1 a2) eqn:EL; [|discriminate].
+  apply Z.eqb_eq in ES. apply Z.ltb_lt in EL. apply negb_true_iff in Est.
+  destruct (i_zero _ Hinv ES) as [Z1 Z2].
+  apply ep_add_initial_spec in H0; auto. destruct H0 as (I' & _ & _).
+  inversion H; subst; clear H. simpl.
+  split; [exact ES|]. split; [exact Est|].
+  split; [intros ad Had; rewrite Had in Ead; apply Z.eqb_eq in Ead; exact Ead|].
+  split; [exact EL|]. split; [reflexivity|].
+  split; [reflexivity|]. split; [lia|]. split; [lia|]. split; [reflexivity|].
+  pose proof min_liq_pos.
+  assert (HSp : 0 < p_S (set_state (lp_credit (add_bal (add_bal (set_pool (lp_credit p SELF MINIMUM_LIQUIDITY)
+      (p_r1 p + a1) (p_r2 p + a2) (Z.min a1 a2)) T1 a1) T2 a2) c (Z.min a1 a2 - MINIMUM_LIQUIDITY)) ST_PartialActive)).
+  { simpl. lia. }
+  destruct (i_pos _ I' HSp) as (_ & _ & G). lia.
+Qed.
+
+(** once liquidity exists the LP supply can never return to zero (nor below the locked floor) *)
+Lemma step_S_floor p op p' o e :
+  PairInv p -> 0 < p_S p -> step p op = Ok (p', o, e) -> MINIMUM_LIQUIDITY <= p_S p'.
+Proof.
+  intros Hinv HS H.
+  pose proof (step_spec _ _ _ _ _ H Hinv) as (I' & _ & _).
+  assert (Hpos : 0 < p_S p' -> MINIMUM_LIQUIDITY <= p_S p').
+  { intros Hp. destruct (i_pos _ I' Hp) as (_ & _ & G).
+    pose proof (i_S _ I') as ES. pose proof (i_nn _ I') as NN. pose proof (i_nd _ I') as ND.
+    (* S' = sum of all LP balances >= the pair's own balance *)
+    assert (Hge : forall l a, NoDup (akeys l) -> all_nonneg l -> aget l a <= asum l).
+    { clear. induction l as [|[k v] t IH]; intros a ND NN; simpl; [lia|].
+      inversion ND; subst. inversion NN; subst. simpl in *.
+      destruct (k =? a).
+      - assert (0 <= asum t). { clear - H4. induction t as [|[k' v'] t' IH']; simpl; [lia|]. inversion H4; subst. simpl in *. specialize (IH' H2). lia. }
+        lia.
+      - specialize (IH a H2 H4). lia. }
+    specialize (Hge (p_lp p') SELF ND NN). unfold lp_of in G. lia. }
+  destruct op; simpl in H.
+  - (* AddInitial needs S = 0 *) unfold ep_add_initial in H.
+    destruct (match p_adder p with Some ad => c =? ad | None => true end); [|discriminate].
+    destruct ((0 <? a1) && (0 <? a2)); [|discriminate].
+    destruct (negb (is_state_active (p_state p))); [|discriminate].
+    destruct (p_S p =? 0) eqn:ES; [apply Z.eqb_eq in ES; lia | discriminate].
+  - apply add_char in H; auto. destruct H as (o1 & o2 & liq & _ & _ & _ & _ & _ & Hl & _ & _ & HS' & _).
+    apply Hpos. lia.
+  - apply remove_char in H; auto.
+    destruct H as (x1 & x2 & _ & Hlp & HSl & _ & _ & _ & _ & _ & _ & _ & _ & HS' & _). lia.
+  - apply ep_swap_in_spec in H; auto. destruct H as (_ & _ & _ & [LS _] & _). apply Hpos. lia.
+  - apply ep_swap_out_spec in H; auto. destruct H as (_ & _ & _ & [LS _] & _). apply Hpos. lia.
+  - apply ep_swap_no_fee_spec in H; auto. destruct H as (_ & _ & _ & [LS _] & _). apply Hpos. lia.
+  - (* RemoveBuyBack *) unfold ep_remove_buyback in H.
+    destruct (existsb _ _); [|discriminate].
+    destruct (0 <? lp) eqn:Elp; [|discriminate]. apply Z.ltb_lt in Elp.
+    apply bind_ok in H. destruct H as (p0 & Hdeb & H).
+    apply bind_ok in H. destruct H as ([[p1 x1] x2] & Hrem & H).
+    apply bind_ok in H. destruct H as ([p2 e2] & Hf1 & H).
+    apply bind_ok in H. destruct H as ([p3 e3] & Hf2 & H).
+    inversion H; subst; clear H.
+    unfold lp_debit in Hdeb. destruct (negb (c =? SELF)); [|discriminate].
+    apply bind_ok in Hdeb. destruct Hdeb as (b & _ & Hdeb). inversion Hdeb; subst; clear Hdeb.
+    apply pool_remove_spec in Hrem; auto. simpl in Hrem.
+    destruct Hrem as (_ & HSl & -> & -> & Hx1 & Hx2 & _ & _ & ->).
+    destruct (i_pos _ Hinv HS) as (P1 & P2 & _).
+    change T1 with (tok_in true) in Hf1.
+    apply send_fee_slice_spec in Hf1; try (unfold rin, rout; simpl; lia).
+    destruct Hf1 as [_ [L2 _] _ _ R2i R2o _].
+    change T2 with (tok_in false) in Hf2.
+    apply send_fee_slice_spec in Hf2; try (unfold rin, rout in *; simpl in *; lia).
+    destruct Hf2 as [_ [L3 _] _ _ _ _ _].
+    rewrite L3, L2. simpl. lia.
+  - unfold ep_set_fee in H. destruct (has_owner_perm c); [|discriminate].
+    destruct (_ && _); [|discriminate]. inversion H; subst. simpl. apply Hpos. simpl. lia.
+  - unfold ep_set_fee_on in H. destruct (has_owner_perm c); [|discriminate]. destruct en.
+    + destruct (negb _); [|discriminate]. inversion H; subst. apply Hpos. simpl. lia.
+    + destruct (existsb (fun d => fst d =? a) (p_dests p)); [|discriminate].
+      destruct (existsb (pair_eqb (a, tok)) (p_dests p)); [|discriminate].
+      inversion H; subst. apply Hpos. simpl. lia.
+  - unfold ep_set_collector in H. destruct (has_owner_perm c); [|discriminate].
+    destruct (_ && _); [|discriminate]. inversion H; subst. apply Hpos. simpl. lia.
+  - unfold ep_set_state in H. destruct (has_owner_perm c); [|discriminate].
+    destruct (_ && _); [|discriminate]. inversion H; subst. apply Hpos. simpl. lia.
+  - unfold ep_wl_add in H. destruct (has_owner_perm c); [|discriminate].
+    destruct (negb _); [|discriminate]. inversion H; subst. apply Hpos. simpl. lia.
+  - unfold ep_wl_rm in H. destruct (has_owner_perm c); [|discriminate].
+    destruct (existsb _ _); [|discriminate]. inversion H; subst. apply Hpos. simpl. lia.
+  - unfold ep_trust in H. destruct (has_owner_perm c); [|discriminate].
+    destruct (negb (ta =? tb)); [|discriminate]. destruct (negb _); [|discriminate].
+    inversion H; subst. apply Hpos. simpl. lia.
+  - unfold ep_lp_transfer in H. destruct (0 <? amt); [|discriminate].
+    apply bind_ok in H. destruct H as (p1 & Hd & H). inversion H; subst; clear H.
+    unfold lp_debit in Hd. destruct (negb (src =? SELF)); [|discriminate].
+    apply bind_ok in Hd. destruct Hd as (b & _ & Hd). inversion Hd; subst. apply Hpos. simpl. lia.
+  - unfold ep_donate in H. destruct (_ && _); [|discriminate]. inversion H; subst.
+    apply Hpos. unfold add_bal. destruct (tok =? T1); simpl; lia.
+Qed.
+
+(** with an initial-liquidity adder configured, addLiquidity is rejected until the first deposit *)
+Lemma add_needs_initial p c a1 a2 m1 m2 ad :
+  p_adder p = Some ad -> p_S p = 0 -> is_ok (ep_add p c a1 a2 m1 m2) = false.
+Proof.
+  intros Had HS. unfold ep_add. rewrite Had, HS. simpl.
+  destruct ((0 <? m1) && (0 <? m2)); [|reflexivity].
+  destruct ((0 <? a1) && (0 <? a2)); [|reflexivity].
+  destruct (is_state_active (p_state p)); reflexivity.
 Qed.
